@@ -31,6 +31,7 @@ GENERATORS = [
     ('gen_openers', 'Openers.lean', _unsup),
     ('gen_loops', 'Loops.lean', _unsup),
     ('gen_dispatch', 'Dispatch.lean', _unsup),
+    ('gen_segstate', 'SegState.lean', lambda r: {'unsupported': r['unsupported'], 'mutations': r['mutations'], 'acct': r['acct']}),
     ('tables_xml', 'XmlTables.lean', lambda r: None),
 ]
 
